@@ -353,7 +353,7 @@ class Check:
     def __init__(self, pid, tier, seed):
         self.pid, self.tier, self.seed = pid, tier, seed
         self.t0 = time.time()
-        self.rng = random.Random(seed * 1000003 + int(pid[1:]))
+        self.rng = random.Random(seed * 1000003 + int(re.sub(r"\D", "", pid)))
         # a run against a scratch copy (VERIF_REPO) keeps its work files, replays and evidence apart from /repo's
         self.work = os.path.join(WORK, pid + _TAG)
         self.outdir = ROOT if not _TAG else os.path.join(WORK, "out" + _TAG)
